@@ -221,7 +221,7 @@ def run(fx, rep, tier):
                                "them in recorded order (shared with C19-R4)")
             from . import c19
             s5 = type(rep)(rep.prop, rep.tier)
-            c19.run({"dev": facts}, s5, "quick")
+            c19.run({"dev": facts}, s5, "quick", shares=False)
             for o in s5.obls:
                 if o["rule"] == "C19-R4":
                     o["rule"] = "C18-R5"
